@@ -850,6 +850,10 @@ func mutateCodecLeaf(r *Rng, n *jnode) string {
 	collectLeaves(n, map[string]bool{"private_key": true, "next_message": true}, &b64s)
 	if len(ids) > 0 && (r.Bool() || len(b64s) == 0) {
 		l := ids[r.Intn(len(ids))]
+		if len(l.s) < 64 { // already mutated by an earlier pass
+			l.s = l.s + "0f"
+			return "id-codec"
+		}
 		switch r.Intn(7) {
 		case 0:
 			l.s = l.s[:62]
